@@ -6,12 +6,13 @@ from harness import common as C
 
 
 def main():
-  from harness.translate import scalers, sqlshape, statusmap, enummaps, serial, rngsites, warpers, optloop, exptrs, svclocks, suggdefault, svchandlers, trialcache, ramshape, nsparse, dominance, extbfs, svcsuggest, svcearlystop, svcoptimal, pcfactory, policysteps
+  from harness.translate import scalers, sqlshape, statusmap, enummaps, serial, rngsites, warpers, optloop, exptrs, svclocks, suggdefault, svchandlers, trialcache, ramshape, nsparse, dominance, extbfs, svcsuggest, svcearlystop, svcoptimal, pcfactory, policysteps, scaledispatch, membership, autocast, gridstate, besttrials
   jobs = [('Gen/Scalers.v', scalers), ('Gen/SqlShapes.v', sqlshape), ('Gen/StatusMap.v', statusmap), ('Gen/EnumMaps.v', enummaps),
           ('Gen/Serial.v', serial), ('Gen/RngSites.v', rngsites), ('Gen/Warpers.v', warpers), ('Gen/OptLoop.v', optloop),
           ('Gen/Exptrs.v', exptrs), ('Gen/ServiceLocks.v', svclocks), ('Gen/SuggestDefault.v', suggdefault),
           ('Gen/Handlers.v', svchandlers), ('Gen/TrialCacheSrc.v', trialcache), ('Gen/RamShapes.v', ramshape), ('Gen/NamespaceSrc.v', nsparse), ('Gen/Dominance.v', dominance), ('Gen/ExternalSrc.v', extbfs), ('Gen/SuggestSrc.v', svcsuggest),
-          ('Gen/EarlyStopSrc.v', svcearlystop), ('Gen/OptimalSrc.v', svcoptimal), ('Gen/FactorySrc.v', pcfactory), ('Gen/PolicySrc.v', policysteps)]
+          ('Gen/EarlyStopSrc.v', svcearlystop), ('Gen/OptimalSrc.v', svcoptimal), ('Gen/FactorySrc.v', pcfactory), ('Gen/PolicySrc.v', policysteps), ('Gen/ScaleDispatchSrc.v', scaledispatch),
+          ('Gen/MembershipSrc.v', membership), ('Gen/AutoCastSrc.v', autocast), ('Gen/GridSrc.v', gridstate), ('Gen/BestTrialsSrc.v', besttrials)]
   rc = 0
   for rel, mod in jobs:
     try:
